@@ -157,6 +157,9 @@ def judge(ctx, pid, scn, events, prints, family="interop"):
                     classes = {}
                     for f in d["missing"]:
                         c = fact_class(f) + sql_context(f, shapes.get(p["t"]))
+                        if f[0] == "A":
+                            kind = next((t["kind"] for t in s["doc"]["types"] if t["name"] == f[1]), "?")
+                            c = c.replace("A/", "A/%s/" % kind, 1)
                         if shared_array_param(s["doc"], f):
                             c += "/array-parameter-name-shared-by-operations"
                         classes.setdefault(c, []).append(f)
